@@ -88,7 +88,7 @@ func (E *Engine) demandProps(fn *ssa.Function, seen map[*ssa.Function]bool, out 
 			if !(isModuleFn(callee) || callee.Parent() != nil && isModuleFn(callee.Parent())) {
 				continue
 			}
-			if c := E.Specs.Contracts[FuncName(callee)]; c != nil && (c.Modular || c.Trusted) {
+			if c := E.Specs.Contracts[FuncName(callee)]; c != nil {
 				for _, rq := range c.Requires {
 					if rq.CallSiteOnly {
 						for _, p := range rq.Props {
@@ -96,7 +96,9 @@ func (E *Engine) demandProps(fn *ssa.Function, seen map[*ssa.Function]bool, out 
 						}
 					}
 				}
-				continue
+				if c.Modular || c.Trusted {
+					continue
+				}
 			}
 			E.demandProps(callee, seen, out)
 		}
